@@ -36,14 +36,16 @@ example : npBase .sum .u8 = .u64 ∧ npBase .mean .f32 = .f32 ∧ npBase .mean .
 
 /-! ## result dtype = NumPy's convention -/
 
-/- FULL STATEMENT demanded by the property (does NOT hold, see the counterexamples below):
+/- FULL STATEMENT demanded by the property (fails in one table-level cell only, see `boolMode_counterexample`):
      ∀ f d u k mc e r, inDomain f d u k → model f d u k mc e = .ok r → spec f d u (effFill f k mc) = some r        -/
 
-/-- **Result dtype follows NumPy's conventions** on the whole grid, outside the two recorded deviations
-    (`knownDeviation`: bool input cast back to bool after min/max/first/last although `dtype=` / `fill_value=` asked for
-    more – finding C11-F2; bool input of `mode` left as int64): whenever the call returns, its dtype is the requested
+/-- **Result dtype follows NumPy's conventions** on the whole grid, outside the one recorded deviation
+    (`knownDeviation` = `boolModeDeviation`: the bool input of `mode` / `nanmode` is left as int64; `mode` cannot be run
+    in this environment, so the cell is visible in the table only): whenever the call returns, its dtype is the requested
     dtype, else the reduction's NumPy default, widened by `np.result_type` to hold the fill — for every reduction,
-    input dtype, `dtype=`, fill, `min_count` and engine. -/
+    input dtype, `dtype=`, fill, `min_count` and engine.  (Until /repo d4708ca a second deviation existed: bool input
+    of min/max/first/last was cast back to bool whatever `dtype=` / `fill_value=` asked for; see
+    `boolSelect_follows_convention`.) -/
 theorem finalDtype_eq_convention_partial (f : Func) (d : DType) (u : UserD) (k : FillK) (mc e : Bool) (r : DType)
     (hdom : inDomain f d u k = true) (hdev : knownDeviation f d u k = false)
     (h : model f d u k mc e = .ok r) : spec f d u (effFill f k mc) = some r := by
@@ -56,19 +58,33 @@ theorem finalDtype_eq_convention_partial (f : Func) (d : DType) (u : UserD) (k :
     simp only [checkConvention, hdom, Bool.not_true, Bool.false_or, h, hdev] at hc
     exact eq_of_beq hc
 
-/-- inside NumPy's domain the dtype logic never refuses a call (refusals come from kernels at run time only) -/
+/-- the same statement for everything but `mode` / `nanmode`, without any deviation hypothesis -/
+theorem finalDtype_eq_convention (f : Func) (d : DType) (u : UserD) (k : FillK) (mc e : Bool) (r : DType)
+    (hdom : inDomain f d u k = true) (hf : f ≠ .mode ∧ f ≠ .nanmode)
+    (h : model f d u k mc e = .ok r) : spec f d u (effFill f k mc) = some r := by
+  apply finalDtype_eq_convention_partial f d u k mc e r hdom _ h
+  simp [knownDeviation, boolModeDeviation, hf.1, hf.2]
+
+/-- inside NumPy's domain the dtype logic refuses exactly one kind of call: an arg-reduction with a floating `dtype=`
+    (`ValueError("arg-reductions return integer positions")`); all other refusals come from kernels at run time -/
 theorem finalDtype_defined (f : Func) (d : DType) (u : UserD) (k : FillK) (mc e : Bool)
-    (hdom : inDomain f d u k = true) : ∃ r, model f d u k mc e = .ok r := by
+    (hdom : inDomain f d u k = true) (harg : argFloatRefused f u = false) : ∃ r, model f d u k mc e = .ok r := by
   have he := (engine_independent f d u k mc).1
   have hc := (checkCell_at f d u k mc).1
   simp only [checkConvention, hdom, Bool.not_true, Bool.false_or] at hc
   have : ∃ r, model f d u k mc false = .ok r := by
     cases hm : model f d u k mc false with
     | ok r => exact ⟨r, rfl⟩
-    | error s => rw [hm] at hc; cases hc
+    | error s => rw [hm] at hc; simp only at hc; rw [harg] at hc; cases hc
   cases e
   · exact this
   · rw [he]; exact this
+
+/-- …and that refusal does happen, whatever the other arguments -/
+theorem argFloat_refused (f : Func) (d : DType) (u : UserD) (k : FillK) (mc e : Bool)
+    (harg : argFloatRefused f u = true) : model f d u k mc e = .error "ValueError" := by
+  unfold model apiDtype
+  simp [harg]
 
 /-- the hypotheses are satisfiable and the conclusion is informative -/
 example : inDomain .nansum .u8 .unset .neg = true ∧ knownDeviation .nansum .u8 .unset .neg = false ∧
@@ -77,14 +93,15 @@ example : modelDtype .max_ .i8 .unset .big false true = some .i64 ∧ modelDtype
     modelDtype .count .M8 .unset .unset false false = some .i64 ∧ modelDtype .first .m8 .unset .unset false false = some .m8 := by
   decide +kernel
 
-/-- necessity of `knownDeviation` (1): max of a bool array with `fill_value=NaN` is announced and returned as bool
-    although the convention (and flox's own `_initialize_aggregation`: float64) needs float64 to hold NaN -/
-theorem boolSelect_counterexample :
-    inDomain .max_ .bool .unset .nan = true ∧ modelDtype .max_ .bool .unset .nan false false = some .bool ∧
-    spec .max_ .bool .unset .nan = some .f64 ∧
-    (apiInit dtypeRowsOf .max_ .bool .unset .nan false false).map (·.final) = some .f64 := by decide +kernel
+/-- the former deviation cell (finding C11-F2, repaired): min / max / first / last of a bool array now widen like every
+    other input — bool without `dtype=` / fill, int64 for an integer fill, float64 for NaN, the requested dtype otherwise -/
+theorem boolSelect_follows_convention :
+    modelDtype .max_ .bool .unset .unset false false = some .bool ∧
+    modelDtype .max_ .bool .unset .nan false false = some .f64 ∧ spec .max_ .bool .unset .nan = some .f64 ∧
+    modelDtype .nanfirst .bool .unset .neg false false = some .i64 ∧ spec .nanfirst .bool .unset .neg = some .i64 ∧
+    modelDtype .min_ .bool .f32 .zero true false = some .f32 ∧ spec .min_ .bool .f32 .zero = some .f32 := by decide +kernel
 
-/-- necessity of `knownDeviation` (2): `mode` of a bool array is int64, not the input dtype -/
+/-- necessity of `knownDeviation`: `mode` of a bool array is int64, not the input dtype -/
 theorem boolMode_counterexample :
     modelDtype .mode .bool .unset .unset false false = some .i64 ∧ spec .mode .bool .unset .unset = some .bool := by
   decide +kernel
